@@ -129,9 +129,9 @@ def splice(fn_text, fspec, loops):
         t = t.replace('/*@ENTRY@*/', ent.rstrip('\n'), 1)
         for where, txt in fspec.ghost.items():
             if where == 'entry': continue
-            m = re.match(r'(before-loop|after-loop) (\d+)$', where)
+            m = re.match(r'(before-loop|after-loop|body-begin) (\d+)$', where)
             if not m: raise Broken('%s: ghost position "%s" not supported' % (fspec.name, where))
-            mark = '/*@%s %s@*/' % ('BEFORELOOP' if m.group(1) == 'before-loop' else 'AFTERLOOP', m.group(2))
+            mark = '/*@%s %s@*/' % ({'before-loop': 'BEFORELOOP', 'after-loop': 'AFTERLOOP', 'body-begin': 'BODYBEGIN'}[m.group(1)], m.group(2))
             if mark not in t: raise Broken('%s: no loop %s for ghost statement' % (fspec.name, m.group(2)))
             for st in txt.split(';'):
                 st = st.strip()
@@ -139,7 +139,7 @@ def splice(fn_text, fspec, loops):
             t = t.replace(mark, txt.rstrip('\n'), 1)
     else:
         t = t.replace('/*@ENTRY@*/', '', 1)
-    t = re.sub(r'/\*@(BEFORELOOP|AFTERLOOP) \d+@\*/\n?', '', t)
+    t = re.sub(r'/\*@(BEFORELOOP|AFTERLOOP|BODYBEGIN) \d+@\*/\n?', '', t)
     return t
 
 
